@@ -15,20 +15,23 @@ def builds(tier):
 def run(chk):
     asan, h5 = vlib.build_many(builds(chk.tier))
     T = chk.thorough()
+    # wall-clock cap per shard process: only a safety net (an idle machine needs ~4 min per thorough shard);
+    # generous, because a killed shard loses the case it was running (reported as inconclusive)
+    cap = 7200 if T else 1800
     with cf.ThreadPoolExecutor(max_workers=2) as bg:
         # the long histories run beside the other parts, each case in its own process
         ng = 24 if T else 8
         growth = bg.submit(vlib.run_sharded, asan, ng, chk.seed, chk.tier, ['--mode', 'maps', '--profile', 'growth'],
-                           shards=8, tag='c12g', timeout=3000, stall_s=150)
+                           shards=8, tag='c12g', timeout=cap, stall_s=150)
         big = bg.submit(vlib.run_sharded, asan, 6, chk.seed, chk.tier, ['--mode', 'flexbig'],
-                        shards=6, tag='c12b', timeout=3000, stall_s=150) if T else None
-        chk.absorb(vlib.run_sharded(asan, 8000 if T else 560, chk.seed, chk.tier, ['--mode', 'maps', '--profile', 'std'], tag='c12a'),
+                        shards=6, tag='c12b', timeout=cap, stall_s=150) if T else None
+        chk.absorb(vlib.run_sharded(asan, 8000 if T else 560, chk.seed, chk.tier, ['--mode', 'maps', '--profile', 'std'], tag='c12a', timeout=cap),
                    'histories x 8 map types + dumps/reloads (asan)')
-        chk.absorb(vlib.run_sharded(h5, 1600 if T else 144, chk.seed, chk.tier, ['--mode', 'maps', '--profile', 'flex'], tag='c12f'),
+        chk.absorb(vlib.run_sharded(h5, 1600 if T else 144, chk.seed, chk.tier, ['--mode', 'maps', '--profile', 'flex'], tag='c12f', timeout=cap),
                    'FlexMem sparse->dense switch at 4096 (hook H5, asan)')
-        chk.absorb(vlib.run_sharded(asan, 16000 if T else 1600, chk.seed, chk.tier, ['--mode', 'nlfw', '--profile', 'std'], tag='c12n'),
+        chk.absorb(vlib.run_sharded(asan, 16000 if T else 1600, chk.seed, chk.tier, ['--mode', 'nlfw', '--profile', 'std'], tag='c12n', timeout=cap),
                    'NodeLocationsForWays, all type pairs (asan)')
-        chk.absorb(vlib.run_sharded(h5, 1600 if T else 160, chk.seed, chk.tier, ['--mode', 'nlfw', '--profile', 'flex'], tag='c12m'),
+        chk.absorb(vlib.run_sharded(h5, 1600 if T else 160, chk.seed, chk.tier, ['--mode', 'nlfw', '--profile', 'flex'], tag='c12m', timeout=cap),
                    'NodeLocationsForWays with a FlexMem that switches (hook H5, asan)')
         chk.absorb(growth.result(), 'histories of > 1 Mi / > 2 Mi entries: mmap_vector growth (asan)')
         if big is not None:
